@@ -214,6 +214,41 @@ func TestBoundedC14SubsHooks(t *testing.T) {
 		}
 	}
 
+	// two subscriptions made from the same query object are still two subscriptions: cancelling one
+	// leaves the other one active
+	{
+		cases++
+		shared := q.New(dbName + ":shared/").MustBeValid()
+		s1, err1 := admin.Subscribe(shared)
+		s2, err2 := admin.Subscribe(shared)
+		if err1 != nil || err2 != nil {
+			t.Fatal(err1, err2)
+		}
+		func() {
+			defer func() {
+				if r := recover(); r != nil {
+					fail(fmt.Sprintf("two subscriptions sharing a query object: panic: %v", r))
+				}
+			}()
+			if err := s2.Cancel(); err != nil {
+				fail("cancel of the second of two subscriptions sharing a query object: " + err.Error())
+			}
+			_ = admin.Put(NewExample(dbName+":shared/x", "n", 1))
+			if got := drain(s1); len(got) != 1 {
+				fail(fmt.Sprintf("two subscriptions sharing a query object: after cancelling the second, the first gets %d deliveries for a matching write, want 1", len(got)))
+			}
+			select {
+			case _, ok := <-s2.Feed:
+				if ok {
+					fail("two subscriptions sharing a query object: the cancelled one still gets deliveries")
+				}
+			default:
+				fail("two subscriptions sharing a query object: the feed of the cancelled one is not closed")
+			}
+			_ = s1.Cancel()
+		}()
+	}
+
 	// ---- hooks
 	for _, prefix := range []string{"", "in/", "in/a", "other/"} {
 		for _, minScore := range []int{-1, 5} {
